@@ -404,13 +404,30 @@ def guards_of(body, bb):
     successors can avoid it."""
     out = []
     succ = body.normal_succ()
+    loops = getattr(body, "_loops_by_hdr", None)
+    if loops is None:
+        loops = {}
+        for (src, hdr) in body.back_edges():
+            loops.setdefault(hdr, set()).update(body.natural_loop(src, hdr))
+        body._loops_by_hdr = loops
     for sb, blk in enumerate(body.blocks):
         t = blk["term"]
         if t["k"] != "switch":
             continue
         if not body.dominates(sb, bb):
             continue
+        # a test inside an earlier loop that bb comes after: bb runs once that loop is done, whichever way it was left
+        after_loop = False
+        for hdr, L in loops.items():
+            if sb in L and bb not in L:
+                exits = {x for y in L for x in succ[y] if x not in L and body.blocks[x]["term"]["k"] != "unreachable"}
+                if exits and all(x == bb or bb in body.reachable_fwd(x) for x in exits):
+                    after_loop = True
+        if after_loop:
+            continue
         arms = [(v, tb) for v, tb in t["targets"]] + [("otherwise", t["otherwise"])]
+        # an arm that only leads to `unreachable` (exhaustive match) decides nothing
+        arms = [(v, tb) for v, tb in arms if body.blocks[tb]["term"]["k"] != "unreachable"]
         reach = {}
         for v, tb in arms:
             # within one loop iteration: back edges are not followed
